@@ -1,5 +1,4 @@
 import Gaftools.Props.C03
-import Gaftools.Props.TieA
 import Gaftools.Props.Glue
 import Gaftools.Props.Glue2
 import Gaftools.Props.Reflect
@@ -11,12 +10,9 @@ import Gaftools.Props.Reflect
 #print axioms Gaftools.C03.searchIv_isSome
 #print axioms Gaftools.C03.selected_eq_overlaps
 #print axioms Gaftools.C03.refOf_sortedDisjoint
-#print axioms Gaftools.TieA.isStable_gen_eq_model
 #print axioms Gaftools.Glue.infos_readGraph
 #print axioms Gaftools.Glue.reference_eq
 #print axioms Gaftools.Glue.goodGraph_of_valid
-#print axioms Gaftools.TieA.searchIv_gen_eq_model
-#print axioms Gaftools.TieA.overlapCaseIndex_gen_eq_model
 #print axioms Gaftools.Reflect.segsOf_eq
 #print axioms Gaftools.Reflect.validRGFAB_sound
 #print axioms Gaftools.Reflect.validRGFAB_tagged
